@@ -65,6 +65,7 @@ func DrawScenario(t *Tape, property string) (*Scenario, Config) {
 		sc.Steps = append(sc.Steps, st)
 	}
 	sc.RolloutID = t.Next(3) == 1
+	sc.RolloutIDAnno = sc.RolloutID && t.Next(2) == 1
 	// traffic routing
 	switch t.Pick(3, 2, 2, 2, 1, 1) {
 	case 4:
